@@ -51,7 +51,10 @@ impl Nonce {
             .then_some(())
             .ok_or_else(|| StunError::new(StunErrorType::InvalidParam, "Not nonce cookie"))?;
 
-        let flags = &self.as_str()[NONCE_COOKIE_HEADER.len()..NONCE_COOKIE_HEADER.len() + 4];
+        // Take the bytes, not a sub-string: the value may contain multi-byte
+        // characters that do not end at the fourth byte.
+        let flags =
+            &self.as_str().as_bytes()[NONCE_COOKIE_HEADER.len()..NONCE_COOKIE_HEADER.len() + 4];
         let mut bytes = [0x00; 4];
         let size = BASE64_STANDARD
             .decode_slice(flags, &mut bytes)
